@@ -462,10 +462,10 @@ def gen_config(r, p, fam):
 
 INT_FORMS = ["i4", "i8", ">i4", ">i8", "i2", "u2", "intlist", "i8s"]
 F4_FORMS = ["f4", ">f4", "f4s"]
-# arrays with more than one dimension (shape (1, n): a row x[None, :]; shape (n, 1): a column); switched on
-# once fixes/C12/0004 (flattening in Matcher / Matcher.match) is in /repo -- before it a row makes the C
-# code read beyond the buffer (witness: corpus/C12/fixed-2d-shape.json)
-FORMS_2D = False
+# arrays with more than one dimension (shape (1, n): a row x[None, :]; shape (n, 1): a column).  Before
+# fixes/C12/0004 (flattening in Matcher / Matcher.match; /repo 4f9f37b) a row made the C code read beyond
+# the buffer (witness: corpus/C12/fixed-2d-shape.json)
+FORMS_2D = True
 ANY_FORMS = ["plain", "swapped", "strided", "negstride", "list", "tuple", "readonly"] + (["row2d", "col2d"] if FORMS_2D else [])
 LEN1_FORMS = ["scalar", "zerod", "pyint"]
 
@@ -1323,6 +1323,18 @@ class Watchdog:
             if hb.get("idle") or time.time() - hb["t"] <= self.limit:
                 continue
             what = "%s: the implementation did not return within %d s on this case" % (hb["entry"], self.limit)
+            # the run is about to be killed: print the violations it has recorded so far (their replay
+            # files are on disk), which its own final report would have printed
+            rd = os.path.join(core.VERIF, "replays")
+            for f in sorted(os.listdir(rd)):
+                fp = os.path.join(rd, f)
+                if f.startswith(ctx.pid + "-") and os.path.getmtime(fp) >= ctx.t0:
+                    try:
+                        r_ = json.load(open(fp))
+                        print("VIOLATION property=%s replay=%s%s\n  -> %s" % (
+                            ctx.pid, fp, "" if r_.get("failing_input_found") else " no-failing-input-found", str(r_.get("what"))[:300]))
+                    except (OSError, ValueError):
+                        pass
             ctx.violations = []
             ctx.violation(what, {"kind": "failing-input", "entry": hb["entry"], "case": hb["case"], "impl_output": "no return",
                                  "class": None}, found_input=True)
